@@ -448,6 +448,24 @@ pub fn make_event(e: &Value) -> EngineEvent<DataKind> {
             instrument: inst,
             kind: DataKind::Trade(PublicTrade { id: format!("m{t}"), price: i(e, "price") as f64, amount: 1.0, side: Side::Buy }),
         })),
+        // a market item without a price of its own: a one-sided or empty top of book, a candle, a liquidation
+        "MarketNoPrice" => EngineEvent::Market(MarketStreamEvent::Item(MarketEvent {
+            time_exchange: time(t),
+            time_received: time(t),
+            exchange: exchange_id(ex),
+            instrument: inst,
+            kind: {
+                use barter_data::{books::Level, subscription::{book::OrderBookL1, candle::Candle, liquidation::Liquidation}};
+                let level = Some(Level::new(dec(i(e, "price").max(1)), dec(1)));
+                match t.rem_euclid(5) {
+                    0 => DataKind::OrderBookL1(OrderBookL1 { last_update_time: time(t), best_bid: level, best_ask: None }),
+                    1 => DataKind::OrderBookL1(OrderBookL1 { last_update_time: time(t), best_bid: None, best_ask: level }),
+                    2 => DataKind::OrderBookL1(OrderBookL1 { last_update_time: time(t), best_bid: None, best_ask: None }),
+                    3 => DataKind::Candle(Candle { close_time: time(t), open: 1.0, high: 2.0, low: 0.5, close: 1.5, volume: 3.0, trade_count: 2 }),
+                    _ => DataKind::Liquidation(Liquidation { side: Side::Sell, price: 1.0, quantity: 1.0, time: time(t) }),
+                }
+            },
+        })),
         "MarketReconnecting" => EngineEvent::Market(MarketStreamEvent::Reconnecting(exchange_id(ex))),
         "AccountReconnecting" => EngineEvent::Account(AccountStreamEvent::Reconnecting(exchange_id(ex))),
         "OrderSnap" => account(AccountEventKind::OrderSnapshot(Snapshot(order_snapshot(e)))),
